@@ -34,7 +34,7 @@ pub fn read_all(fmt: &str, bytes: &[u8], cap: usize) -> Result<(usize, bool, Vec
         match fmt {
             "jaspar" => drive!(jaspar::read(rd), |r: &jaspar::Record| format!("{}|{:?}|{}", r.id(), r.description(), mat_u32(r.matrix().matrix()))),
             "jaspar16" => drive!(jaspar16::read::<_, Dna>(rd), |r: &jaspar16::Record<Dna>| format!("{}|{:?}|{}", r.id(), r.description(), mat_u32(r.matrix().matrix()))),
-            "transfac" => drive!(transfac::read::<_, Dna>(rd), |r: &transfac::Record<Dna>| format!("{:?}|{:?}|{:?}|{}", r.id(), r.accession(), r.name(), r.to_counts().map(|c| mat_u32(c.matrix())).unwrap_or_default())),
+            "transfac" => drive!(transfac::read::<_, Dna>(rd), |r: &transfac::Record<Dna>| format!("{:?}|{:?}|{:?}|{:?}|{}", r.id(), r.accession(), r.name(), r.description(), r.to_counts().map(|c| mat_u32(c.matrix())).unwrap_or_default())),
             "uniprobe" => drive!(uniprobe::read::<_, Dna>(rd), |r: &uniprobe::Record<Dna>| format!("{}|{}", r.id(), mat_f32(r.matrix().matrix()))),
             "jaspar16p" => drive!(jaspar16::read::<_, Protein>(rd), |r: &jaspar16::Record<Protein>| format!("{}|{:?}|{}", r.id(), r.description(), mat_gen(r.matrix().matrix().iter().map(|x| x.iter().map(|v| v.to_string()).collect()).collect()))),
             "transfacp" => drive!(transfac::read::<_, Protein>(rd), |r: &transfac::Record<Protein>| format!("{:?}|{:?}|{:?}|{}", r.id(), r.accession(), r.name(), r.to_counts().map(|c| mat_gen(c.matrix().iter().map(|x| x.iter().map(|v| v.to_string()).collect()).collect())).unwrap_or_default())),
@@ -145,6 +145,9 @@ pub fn gen_file(fmt: &str, rng: &mut Rng, n: usize) -> (String, Vec<String>) {
             }
             "transfac" => {
                 text.push_str(&format!("AC  {}\nXX\nID  {}\nXX\nNA  {}\nXX\n", id, id, name));
+                // the optional description line, with one or two blanks after the tag
+                let desc = if rng.below(2) == 0 { Some(format!("activator {} of {}", k, name)) } else { None };
+                if let Some(d) = &desc { text.push_str(&format!("DE{}{}\nXX\n", if rng.below(2) == 0 { "  " } else { " " }, d)); }
                 text.push_str("P0      A      C      G      T\n");
                 for i in 0..w { text.push_str(&format!("{:02}     {:>2}     {:>2}     {:>2}     {:>2}      N\n", i + 1, counts[i][0], counts[i][1], counts[i][2], counts[i][3])); }
                 text.push_str("XX\n");
@@ -155,7 +158,7 @@ pub fn gen_file(fmt: &str, rng: &mut Rng, n: usize) -> (String, Vec<String>) {
                     if rng.below(2) == 0 { text.push_str("RN  [2]\nRA  Hu Y.-F., Lüscher B., Ørsted Å.\nRT  Über die Bindung von NF-κB\nRL  Genes Dev. 4:1741–1752 (1990).\nXX\n"); }
                 }
                 text.push_str("//\n");
-                sigs.push(format!("{:?}|{:?}|{:?}|{}", Some(id.as_str()), Some(id.as_str()), Some(name.as_str()), m));
+                sigs.push(format!("{:?}|{:?}|{:?}|{:?}|{}", Some(id.as_str()), Some(id.as_str()), Some(name.as_str()), desc.as_deref(), m));
             }
             "uniprobe" => {
                 // frequencies: rows must sum to ~1
